@@ -482,6 +482,15 @@ def fixed_cases(tier):
             data = open(path, "rb").read()
             if 0 < len(data) <= 1 << 16:
                 out.append(dict(kind="fuzz", tool=tool, data=data.hex(), origin=sub))
+    # the saved corpus of the asl target (coverage-distinct inputs of earlier long campaigns): quick replays a
+    # slice that rotates with the seed, thorough all of it
+    from vf import fuzzcorpus
+    items = fuzzcorpus.load()
+    step = 6 if tier == "quick" else 1
+    ph = engine.seed_from_env() % step
+    for k, data in enumerate(items):
+        if k % step == ph:
+            out.append(dict(kind="fuzz", tool="asl", data=data.hex(), origin="corpus"))
     # artifacts of this run's libFuzzer campaigns (candidates only; the stand-alone judge decides)
     for tool, kind, data in _campaign.get("arts", []):
         out.append(dict(kind="fuzz", tool=tool, data=data.hex(), origin="libfuzzer-" + kind))
